@@ -89,6 +89,9 @@ def generate(rng, n, tier, stats):
         nd = len(a['dims'])
         by = 'label' if rng.random() < 0.8 else 'position'
         spelling = rng.choice(['getitem', 'getitem', 'take', 'take', 'loc', 'sel', 'ix', 'iloc', 'isel', 'take_pos', 'take_lab', 'nloc', 'tol', 'tol', 'tol'])
+        if by == 'position' and rng.random() < 0.5:
+            # under indexing.by = position the accessors keep their meaning (.loc / .sel by label, .iloc / .isel by position) and .ix toggles
+            spelling = rng.choice(['ix', 'ix', 'ix', 'sel', 'loc', 'take_lab', 'iloc', 'isel'])
         tol = None
         if spelling == 'tol':
             spelling = 'take'; tol = rng.choice([0.25, 0.5, 1.0, 'inf'])
